@@ -118,6 +118,15 @@ def build(kind: str, dest: Path) -> None:
         elif kind == "swapif":
             from icgsa.mutate import swap_branches
             swap_branches(tree)
+        elif kind == "kwcalls":
+            from icgsa.core import Program
+            from icgsa.mutate import keyword_calls, package_signatures
+            global _SIG
+            try:
+                _SIG
+            except NameError:
+                _SIG = package_signatures(Program("/repo"))
+            keyword_calls(tree, _SIG)
         elif kind == "noannot":
             strip_annotations(tree)
         elif kind == "reorder":
@@ -128,7 +137,7 @@ def build(kind: str, dest: Path) -> None:
 def main() -> int:
     kinds = sys.argv[1:] or ["all"]
     if kinds == ["all"]:
-        kinds = ["reformat", "rename", "asserts", "reorder", "hoist", "noannot"]
+        kinds = ["reformat", "rename", "asserts", "reorder", "hoist", "noannot", "flipcmp", "swapif", "kwcalls"]
     props = [json.loads(l)["id"] for l in (VERIF / "properties.jsonl").read_text().splitlines() if l.strip()]
     bad = 0
     for kind in kinds:
